@@ -687,6 +687,7 @@ func SpecContains(s string, sub string) bool { return false }
 //@   assume no_overflow: offset.Offset < 9223372036854775807
 //@   modifies heap
 //@   ensures continuation_is_exact: err == nil && !fullSync && offset.Offset >= 0 ==> off.Offset == offset.Offset
+//@   ensures partial_has_no_snapshot: err == nil && !fullSync ==> rdbSize == 0
 
 //@ func StartPoint.ToOffset
 //@   inline
@@ -703,10 +704,19 @@ func SpecContains(s string, sub string) bool { return false }
 //@   replay syncer_syncMeta
 //@   ghost var chCleared bool = false
 //@   requires nonnil: ri != nil && redisCli != nil
-//@   modifies heap, chCleared, outInCache
+//@   modifies heap, chCleared, outInCache, snapLeft, snapSize, outSpAsked, chId, chRight, chEmpty
 //@   ghost var outInCache bool = false
 //@   set chCleared = true at call DelRunId
 //@   set outInCache = result after call IsValidOffset
+//@   ghost var snapLeft mathint = 0 - 1
+//@   ghost var snapSize mathint = 0 - 1
+//@   set snapLeft = result0 after call GetRdb
+//@   set snapSize = result1 after call GetRdb
+//@   ensures new_snapshot_is_read_from_its_start: err == nil && isFullSync ==> outSp.Offset == locSp.Offset - rdbSize
+//@   ensures cached_snapshot_is_read_from_its_start: err == nil && !isFullSync && snapLeft != 0 - 1 && snapSize != 0 - 1 ==> outSp.Offset == snapLeft - snapSize && rdbSize == snapSize
+//@   ensures no_snapshot_means_the_target_position_is_kept: err == nil && !isFullSync && (snapLeft == 0 - 1 || snapSize == 0 - 1) ==> outSp.Offset == outSpAsked && rdbSize == 0
+//@   ghost var outSpAsked mathint = 0
+//@   set outSpAsked = result0.Offset after call getOutputStartPoint
 //@   assert at call pSync: continues_from_the_cache_end_only_if_the_cache_serves_the_target_position: offset.RunId != "?" ==> (offset.Offset == outSp.Offset && offset.RunId == outSp.RunId) || (offset.Offset == locSp.Offset && offset.RunId == locSp.RunId && (outInCache || outSp.RunId == "?"))
 //@   assert at call SetRunId: refused_or_unusable_cache_is_deleted_before_it_is_relabelled: isFullSync || clearLocal ==> chCleared
 
@@ -804,3 +814,11 @@ func SpecContains(s string, sub string) bool { return false }
 //@   requires asked_from_where_the_copy_ends_or_with_an_empty_copy: followerSp.Offset == chRight || chEmpty
 //@   assume leader_answers_at_or_after_the_end_of_the_copy: chId == followerSp.RunId && !chEmpty ==> resp.Offset >= chRight
 //@   modifies heap, chId, chRight, chEmpty
+
+// ---- leader side: a follower that holds more than the leader is offered leadership (C16) ----
+//@ func ReplicaLeader.Handle
+//@   arith int
+//@   properties C16
+//@   requires nonnil: rl != nil && req != nil
+//@   modifies heap, chId, chRight, chEmpty
+//@   assert at call sendData: a_follower_ahead_of_the_leader_is_never_sent_data: followerOffset <= sp.Offset
